@@ -115,7 +115,26 @@ def _impl(cls, name, table, absent=".absent", want_property=None):
         return ".custom %s" % lstr(q + " (descriptor kind)")
     if q in table:
         return table[q]
+    k = _owner_key(cls, name, obj, table)
+    if k is not None:
+        return table[k]
     return ".custom %s" % lstr(q)
+
+
+def _owner_key(cls, name, obj, table):
+    """The implementing function carries a qualified name the table does not know (a maintainer moved it into a
+    mixin or helper base).  It is still 'the implementation of <E>.<name>' for a class E the table knows when E is
+    in the MRO of `cls` and E resolves `name` to this very object: then the class data is read under E's semantics
+    - a GUESS about the moved code that the correspondence then checks on every class x outcome x accessor
+    (the domain is finite and covered exhaustively), so a moved function that also changed behaviour shows up
+    as a disagreement with a concrete outcome."""
+    for e in cls.__mro__:
+        if e is object:
+            continue
+        key = "%s:%s.%s" % (e.__module__, e.__qualname__, name)
+        if key in table and name not in e.__dict__ and _find(e, name)[0] is obj:
+            return key
+    return None
 
 
 def import_all():
@@ -189,6 +208,10 @@ def describe(cls, users):
             q = _qual(obj)
             if q in EXTRA and EXTRA[q][0] == n and isinstance(obj, property):
                 extras.append((n, EXTRA[q][1]))
+                continue
+            ok = _owner_key(cls, n, obj, EXTRA) if isinstance(obj, property) else None
+            if ok is not None and EXTRA[ok][0] == n:
+                extras.append((n, EXTRA[ok][1]))
                 continue
             dunder = n.startswith("__") and n.endswith("__")
             if n in bitkeys or dunder:
